@@ -6,6 +6,11 @@
 //   3 s d  move-construct trigger d from s  4 s d  move-assign trigger d = s   5 s    destroy trigger s
 //   6 s l / 7 s / 8 s i  detector (explicit / declared / indexed)              9 s    isTripped
 //   10 d v write datum d   11 d read datum d   12 s d  if (det[s].isTripped()) read datum d else -1
+//   13 l   ReleaseLine: the harness drops its own reference to explicit line l (as a client that moved its
+//          handle into the trigger would); the line lives on in the triggers / detectors holding it; later
+//          Make operations on explicit line l are refused (-1).  Static lines are not affected.
+//   14 s l / 15 s / 16 s i  detector in the table shared by all threads (explicit / declared / indexed)
+//   17 s   isTripped of shared detector s          18 s d  if (shared[s].isTripped()) read datum d else -1
 // An operation the harness cannot perform (slot occupied / empty, number out of the configured range,
 // s == d in a move) does not reach the library and returns -1 (the model does the same).
 //
@@ -32,6 +37,8 @@ struct TripWireComp {
     std::vector<vs::VPay> data;
     std::vector<std::map<long, std::unique_ptr<TripWireTrigger>>> trig;
     std::vector<std::map<long, std::unique_ptr<TripWireDetector>>> det;
+    std::map<long, std::unique_ptr<TripWireDetector>> shared;  // created by one thread, polled by any
+    bool has_line(long l) const { return l >= 0 && l < (long)lines.size() && lines[l] != nullptr; }
 
     explicit TripWireComp(const vs::Case& c)
     {
@@ -55,7 +62,7 @@ struct TripWireComp {
         const long a = arg(1), b = arg(2);
         switch (o[0]) {
             case 0:
-                if (T.count(a) || b >= (long)lines.size()) return -1;
+                if (T.count(a) || !has_line(b)) return -1;
                 T[a] = std::make_unique<TripWireTrigger>(lines[b]);
                 return 0;
             case 1:
@@ -81,7 +88,7 @@ struct TripWireComp {
                 T.erase(a);  // ~TripWireTrigger
                 return 0;
             case 6:
-                if (D.count(a) || b >= (long)lines.size()) return -1;
+                if (D.count(a) || !has_line(b)) return -1;
                 D[a] = std::make_unique<TripWireDetector>(lines[b]);
                 return 0;
             case 7:
@@ -108,6 +115,31 @@ struct TripWireComp {
                 if (!D.count(a) || b >= (long)data.size()) return -1;
                 if (D[a]->isTripped()) return data[b].read();
                 return -1;
+            case 13:
+                if (!has_line(a)) return -1;
+                lines[a].reset();
+                return 0;
+            case 14:
+                if (shared.count(a) || !has_line(b)) return -1;
+                shared[a] = std::make_unique<TripWireDetector>(lines[b]);
+                return 0;
+            case 15:
+                if (shared.count(a)) return -1;
+                shared[a] = std::make_unique<TripWireDetector>();
+                return 0;
+            case 16: {
+                if (shared.count(a)) return -1;
+                auto p = std::make_unique<TripWireDetector>((unsigned int)b);
+                shared[a] = std::move(p);
+                return 0;
+            }
+            case 17:
+                if (!shared.count(a)) return -1;
+                return shared[a]->isTripped() ? 1 : 0;
+            case 18:
+                if (!shared.count(a) || b >= (long)data.size()) return -1;
+                if (shared[a]->isTripped()) return data[b].read();
+                return -1;
         }
         return -1;
     }
@@ -116,7 +148,7 @@ struct TripWireComp {
         std::vector<long> lv, dv;
         lv.push_back(TripWire::getLine()->vs_peek());
         for (unsigned i = 0; i < TW_COUNT; ++i) lv.push_back(TripWire::getIndexedLine(i)->vs_peek());
-        for (auto& l : lines) lv.push_back(l->vs_peek());
+        for (auto& l : lines) lv.push_back(l ? (long)l->vs_peek() : -1L);  // -1: reference released
         for (auto& d : data) dv.push_back(d.peek());
         out.push_back(lv);
         out.push_back(dv);
